@@ -19,15 +19,15 @@ def configs(tier):
 
 
 def write(cfg, d):
-    name = 'MCD_' + cfg['name'] + '_' + cfg['mode']
+    name = 'MCD_' + cfg['name'] + '_' + cfg['mode'] + ('' if cfg.get('retrywal', True) else '_noretry')
     procs = ['p%d' % i for i in range(len(cfg['mix']))]
     kind = fn([(s(p), s('build' if c == 'b' else 'query')) for p, c in zip(procs, cfg['mix'])])
     open(os.path.join(d, name + '.tla'), 'w').write(
         '---- MODULE %s ----\nEXTENDS RedoDb\nc_Kind == %s\n====\n' % (name, kind))
     open(os.path.join(d, name + '.cfg'), 'w').write(
         'CONSTANT Procs = {%s}\nCONSTANT Kind <- c_Kind\nCONSTANT Mode = "%s"\nCONSTANT Exists0 = %s\n'
-        'CONSTANT NWork = %d\nSPECIFICATION Spec\n%s' % (
-            ', '.join(s(p) for p in procs), cfg['mode'], 'TRUE' if cfg['exists'] else 'FALSE', cfg['nwork'],
+        'CONSTANT NWork = %d\nCONSTANT RetryWal = %s\nSPECIFICATION Spec\n%s' % (
+            ', '.join(s(p) for p in procs), cfg['mode'], 'TRUE' if cfg['exists'] else 'FALSE', cfg['nwork'], 'TRUE' if cfg.get('retrywal', True) else 'FALSE',
             ''.join('INVARIANT %s\n' % i for i in INV)))
     return name
 
@@ -58,6 +58,13 @@ def mc_part(tier, d, verdict):
         pinned.append({'config': cfg['name'], 'expected': inv, 'found': res.violated})
         if res.violated != inv:
             tool.append('anti-vacuity: the pinned start-up should violate %s (%s), TLC says %s' % (inv, cfg['name'], res.violated or res.error))
+    # the WAL switch of connect(): without the retry a first invocation fails while another one is in its transaction
+    cfg = {'name': 'db_noretry_new', 'mix': 'bbq', 'exists': False, 'nwork': 1, 'mode': 'fixed', 'retrywal': False}
+    name = write(cfg, d)
+    res = common.run_tlc(name, name + '.cfg', d, workers=4, timeout=600)
+    pinned.append({'config': cfg['name'], 'expected': 'NoSpuriousFailure', 'found': res.violated})
+    if res.violated != 'NoSpuriousFailure':
+        tool.append('anti-vacuity: connect() without retry should violate NoSpuriousFailure, TLC says %s' % (res.violated or res.error))
     for a in ('FBegin', 'RunId', 'WorkBegin', 'WorkCommit', 'QueryRun'):
         if not any(a in k for k in cover):
             pass
